@@ -66,14 +66,14 @@ Example c04_ex_future :
   spec_limit {| c_insts := []; c_points := [1;2;3;4]; c_runahead := 0%nat; c_qlimits := [];
                 c_icp := 1; c_fcp := 4; c_start := 1; c_future := [1] |}
     {| pool := [new_task (2, 0%nat) [1%nat] [] false]; limbo := []; hist := [];
-       subs := []; limit := None; relq := []; abs_done := []; stop_point := 4; done := []; to_hold := []; hold_pt := None; saved := []; stop_mode := None; stop_task := None; crash_mode := false |} = Some 3.
+       subs := []; limit := None; relq := []; abs_done := []; stop_point := 4; done := []; to_hold := []; hold_pt := None; saved := []; stop_mode := None; stop_task := None; crash_mode := false; bcast := 0%nat |} = Some 3.
 Proof. vm_compute. reflexivity. Qed.
 
 Example c04_ex_spec : 
   spec_limit {| c_insts := []; c_points := [1;2;3;4;5;6]; c_runahead := 2%nat; c_qlimits := [];
                 c_icp := 1; c_fcp := 6; c_start := 1; c_future := [] |}
     {| pool := [new_task (2, 0%nat) [1%nat] [] false; new_task (3, 0%nat) [1%nat] [] false]; limbo := []; hist := [];
-       subs := []; limit := None; relq := []; abs_done := []; stop_point := 6; done := []; to_hold := []; hold_pt := None; saved := []; stop_mode := None; stop_task := None; crash_mode := false |} = Some 4.
+       subs := []; limit := None; relq := []; abs_done := []; stop_point := 6; done := []; to_hold := []; hold_pt := None; saved := []; stop_mode := None; stop_task := None; crash_mode := false; bcast := 0%nat |} = Some 4.
 Proof. vm_compute. reflexivity. Qed.
 
 (* FINDING (known, open): the full statement "the limit always equals the
